@@ -322,6 +322,7 @@ func init() {
 		wireBeColumn(wc, r, "C15")
 		// the size of a checksum field comes from its resolved type, not from the type as it was spelled (uint32 has no table row)
 		wireRawType(w, r, "C15", "CheckSumFieldAttribute.Type")
+		sizeSumHonoursRepeat(w, r, "C15")
 		nameKeyedSetOverInline(w, r, "C15", func(fn *ssa.Function) bool { return recvNamedCore(fn) == "LuaWspGenerator" }, "the dissector emitter remembers packets under their names and consults that set for inline objects too: of two inline objects that share a name only the first gets its dissector / its place in the order")
 		wireModelFrame(w, r, "C15", framePackets, nil, map[string]bool{"Packet": true, "Field": true}, "a generator rewrites the packet list / a field list in the shared model: a packet whose slot was overwritten loses its dissector function although it is still called")
 		wireEveryMatchField(w, wc, r, "C15", []string{"lua"})
